@@ -4,7 +4,7 @@
    conditions and parameter groups), at symbols and operators, at keywords followed by a symbol, at
    prefix words; accepted at the function heads of the matching form. *)
 From Verif Require Import Base Regex Token TokEngine Headers Blocks Spec HeaderSpec LexShapes Grammar GrammarAll.
-From Verif Require Import GrammarProofsParen GrammarProofsBrace GrammarProofsHeaders GrammarAllProofsWf.
+From Verif Require Import GrammarProofsParen GrammarProofsBrace GrammarProofsHeaders GrammarAllProofsTok.
 From Verif Require Import GrammarAllProofsSel.
 Open Scope nat_scope.
 
@@ -389,6 +389,121 @@ Proof.
            end; rewrite ?orb_true_r; reflexivity.
 Qed.
 
+(* ---------- no candidate before a brace that no parenthesis precedes ---------- *)
+Definition brace (t : token) : Prop := is_lbrace t = true \/ is_rbrace t = true.
+Lemma brace_inv t : brace t -> is_lparen t = false /\ is_name t = false /\ is_keyword t = false.
+Proof.
+  intros [H|H].
+  - split; [apply lbrace_not_lparen; exact H|]. split; [eapply symbol_not_name | eapply symbol_not_keyword]; exact H.
+  - split; [apply rbrace_not_lparen; exact H|]. split; [eapply symbol_not_name | eapply symbol_not_keyword]; exact H.
+Qed.
+
+Inductive chain : list token -> Prop :=
+| chain_end o B : brace o -> chain (o :: B)
+| chain_cons t W : is_lparen t = false -> chain W -> chain (t :: W).
+
+Lemma chain_ge0 W : chain W -> ge0 W = None.
+Proof.
+  intros [o B Ho|t W' Ht _]; unfold ge0.
+  - apply brace_inv in Ho as (H & _). rewrite H. reflexivity.
+  - rewrite Ht. reflexivity.
+Qed.
+
+Lemma chain_plain W : chain W -> cand_plain W 0 = None.
+Proof.
+  intros [o B Ho|t W' Ht HW]; rewrite cand_plain_0.
+  - apply brace_inv in Ho as (_ & H & _). rewrite H. reflexivity.
+  - rewrite (chain_ge0 W' HW). destruct (is_name t); reflexivity.
+Qed.
+
+Lemma chain_function W : chain W -> cand_function W 0 = None.
+Proof.
+  intros H. pose proof (chain_plain W H) as HP. destruct H as [o B Ho|t W' Ht HW]; rewrite cand_function_0.
+  - apply brace_inv in Ho as (_ & _ & H). rewrite (kw_is_not_keyword _ _ H). exact HP.
+  - destruct (kw_is t s_function); [|exact HP]. rewrite (chain_plain W' HW). reflexivity.
+Qed.
+
+Definition nobrace_at (W : list token) (q : nat) : Prop := sym_at W q lbrace = false /\ sym_at W q rbrace = false.
+
+Lemma chain_lparen_at W : chain W -> forall p, (forall q, q < p -> nobrace_at W q) -> sym_at W p lparen = false.
+Proof.
+  induction 1 as [o B Ho|t W' Ht HW IH]; intros p Hq.
+  - destruct p as [|p]; [apply brace_inv in Ho; apply Ho|].
+    destruct (Hq 0 (Nat.lt_0_succ p)) as [H1 H2]. unfold sym_at in H1, H2. cbn [nth_error] in H1, H2.
+    unfold brace, is_lbrace, is_rbrace in Ho. destruct Ho; congruence.
+  - destruct p as [|p]; [exact Ht|]. change (sym_at (t :: W') (S p) lparen) with (sym_at W' p lparen).
+    apply IH. intros q Hlt. exact (Hq (S q) (proj1 (Nat.succ_lt_mono q p) Hlt)).
+Qed.
+
+Lemma name_at_nobrace W q : name_at W q = true -> nobrace_at W q.
+Proof.
+  unfold name_at, nobrace_at, sym_at. destruct (nth_error W q) as [t|]; [|split; reflexivity].
+  intros H. split; apply name_not_symbol; exact H.
+Qed.
+Lemma op_at_nobrace W q s : op_at W q s = true -> nobrace_at W q.
+Proof.
+  unfold op_at, nobrace_at, sym_at. destruct (nth_error W q) as [t|]; [|split; reflexivity].
+  intros H. split; eapply operator_not_symbol; exact H.
+Qed.
+Lemma kw_at_nobrace W q s : kw_at W q s = true -> nobrace_at W q.
+Proof.
+  unfold kw_at, nobrace_at, sym_at. destruct (nth_error W q) as [t|]; [|split; reflexivity]. intros H. apply andb_prop in H as [H _].
+  split; apply keyword_not_symbol; exact H.
+Qed.
+
+Lemma chain_arrow_nc W : chain W -> arrow_nc W = None.
+Proof.
+  intros H. unfold arrow_nc.
+  destruct (name_at W 0) eqn:E0; [|reflexivity]. destruct (op_at W 1 s_eq) eqn:E1; [|reflexivity]. cbn [andb].
+  destruct (kw_at W 2 s_async) eqn:E2; cbv zeta iota.
+  - assert (E : sym_at W 3 lparen = false).
+    { apply (chain_lparen_at W H). intros q Hq.
+      destruct q as [|[|[|q]]]; [apply name_at_nobrace; exact E0 | eapply op_at_nobrace; exact E1
+                                 | eapply kw_at_nobrace; exact E2 | lia]. }
+    unfold groups_end. rewrite E. reflexivity.
+  - assert (E : sym_at W 2 lparen = false).
+    { apply (chain_lparen_at W H). intros q Hq.
+      destruct q as [|[|q]]; [apply name_at_nobrace; exact E0 | eapply op_at_nobrace; exact E1 | lia]. }
+    unfold groups_end. rewrite E. reflexivity.
+Qed.
+
+Lemma chain_arrow W : chain W -> cand_arrow W 0 = None.
+Proof.
+  intros H. pose proof (chain_arrow_nc W H) as HP. destruct H as [o B Ho|t W' Ht HW]; rewrite cand_arrow_0.
+  - apply brace_inv in Ho as (_ & _ & H). rewrite (kw_is_not_keyword _ _ H). exact HP.
+  - destruct (kw_is t s_const); [|exact HP]. rewrite (chain_arrow_nc W' HW). reflexivity.
+Qed.
+
+Lemma plains_chain ps b B : forallb plain ps = true -> brace b -> chain (ps ++ b :: B).
+Proof.
+  intros Hps Hb. induction ps as [|t ps IH]; [apply chain_end; exact Hb|].
+  cbn [forallb] in Hps. apply andb_prop in Hps as [Ht Hps]. cbn [app]. apply chain_cons; [|apply IH; exact Hps].
+  apply plain_inv in Ht. apply Ht.
+Qed.
+
+(* plain tokens up to a brace, the brace included: no accepted candidate *)
+Lemma plains_no_acc_gen c f (Hc : cshift c) (Hf : fshift f) (Hch : forall W, chain W -> acc c f W 0 = None) ps b B :
+  forallb plain ps = true -> brace b -> no_acc c f (ps ++ [b]) B.
+Proof.
+  intros Hps Hb. induction ps as [|t ps IH].
+  - apply no_acc_single. apply Hch. apply chain_end. exact Hb.
+  - cbn [app]. apply (no_acc_cons c f Hc Hf).
+    + apply Hch. rewrite <- app_assoc. apply (plains_chain (t :: ps) b B Hps Hb).
+    + apply IH. cbn [forallb] in Hps. apply andb_prop in Hps as [_ Hps]. exact Hps.
+Qed.
+
+(* the front of an initialiser statement: plain tokens, "{", plain tokens, "}" *)
+Lemma init_front_no_acc_gen c f (Hc : cshift c) (Hf : fshift f) (Hch : forall W, chain W -> acc c f W 0 = None) pre o flat cl B :
+  forallb plain pre = true -> is_lbrace o = true -> forallb plain flat = true -> is_rbrace cl = true ->
+  no_acc c f (pre ++ o :: flat ++ [cl]) B.
+Proof.
+  intros Hpre Ho Hflat Hcl.
+  replace (pre ++ o :: flat ++ [cl]) with ((pre ++ [o]) ++ flat ++ [cl]) by (norm_app; reflexivity).
+  apply (no_acc_app c f Hc Hf).
+  - apply plains_no_acc_gen; try assumption. left. exact Ho.
+  - apply plains_no_acc_gen; try assumption. right. exact Hcl.
+Qed.
+
 (* ---------- the words of a declaration / control line ---------- *)
 (* one or more words, then "{", or — after a word that is no name — "(" *)
 Inductive wlist : list token -> Prop :=
@@ -510,6 +625,7 @@ Record good (l : language) (c : cand_fn) (f : follow_fn) : Prop := mkGood
     g_isuf : forall w, isuf w -> acc c f w 0 = None;
     g_sym : forall t W, is_name t = false -> is_keyword t = false -> acc c f (t :: W) 0 = None;
     g_wlist : forall V, wlist V -> acc c f V 0 = None;
+    g_chain : forall W, chain W -> acc c f W 0 = None;
     g_prefix : forall t W, prefix_word l t = true -> hd_ok word W -> acc c f (t :: W) 0 = None }.
 
 Lemma good_plain_f l f : fshift f -> isuf_rejects f -> good l cand_plain f.
@@ -520,6 +636,7 @@ Proof.
   - intros w. apply isuf_plain; assumption.
   - intros t W Hn _. apply plain_not_name. exact Hn.
   - intros V HV. apply acc_cand_none, wlist_plain, HV.
+  - intros W HW. apply acc_cand_none, chain_plain, HW.
   - intros t W _ HW. apply plain_not_lparen. apply word_nlp. exact HW.
 Qed.
 
@@ -531,6 +648,7 @@ Proof.
   - intros w. apply isuf_function; assumption.
   - intros t W Hn Hk. apply function_not_name; [apply kw_is_not_keyword; exact Hk | exact Hn].
   - intros V HV. apply acc_cand_none, wlist_function, HV.
+  - intros W HW. apply acc_cand_none, chain_function, HW.
   - intros t W Hp HW. apply prefix_word_inv in Hp as (H1 & _). apply function_not_lparen; [exact H1 | apply word_nlp; exact HW].
 Qed.
 
@@ -548,6 +666,7 @@ Proof.
   - apply isuf_arrow.
   - intros t W Hn Hk. apply arrow_not_name; [apply kw_is_not_keyword; exact Hk | exact Hn].
   - intros V HV. apply acc_cand_none, wlist_arrow, HV.
+  - intros W HW. apply acc_cand_none, chain_arrow, HW.
   - intros t W Hp HW. apply prefix_word_inv in Hp as (_ & H2 & _). apply arrow_noteq; [exact H2 | apply word_noteq; exact HW].
 Qed.
 
@@ -633,6 +752,10 @@ Section Pieces.
     - apply (no_acc_app c f (g_c _ _ _ G) (g_f _ _ _ G)); [|eapply symbol_no_acc; exact Ho].
       destruct Hcond as [->|[Hg _]]; [apply no_acc_nil | apply groups_no_acc; exact Hg].
   Qed.
+  Lemma init_front_no_acc pre o flat cl B :
+    forallb plain pre = true -> is_lbrace o = true -> forallb plain flat = true -> is_rbrace cl = true ->
+    no_acc c f (pre ++ o :: flat ++ [cl]) B.
+  Proof. apply (init_front_no_acc_gen c f (g_c _ _ _ G) (g_f _ _ _ G) (g_chain _ _ _ G)). Qed.
 End Pieces.
 
 (* ---------- the heads accepted ---------- *)
